@@ -9,6 +9,8 @@ import suite_group
 import suite_heap
 import suite_vec
 import suite_names
+import suite_table
+import suite_csv
 
 
 def c04(rep, tier, seed):
@@ -20,6 +22,17 @@ def c04(rep, tier, seed):
     suite_types.mc(rep, tier)
     suite_types.gen(rep, tier)
     suite_types.trace(rep, tier, seed)
+    # results of arithmetic, joins, aggregates, window and CSV parsing are typed by the same rule
+    mon = _merge(suite_vec.gen(rep, tier, ["elem"], ()), suite_table.gen(rep, tier, ["arith"], ()),
+                 suite_join.gen(rep, "quick", '{"inner","left","full"}', '{"many_to_many"}', ()),
+                 suite_group.gen(rep, "quick", ()), suite_csv.gen(rep, tier, ()))
+    evs, seen = [], set()
+    for e in mon["rule"]:
+        k = (e["kind"], e["nullable"], tuple(e["tags"]))
+        if k not in seen:
+            seen.add(k)
+            evs.append(e)
+    suite_types.validate(rep, evs, "c04.results", ("dtype_rule",))
 
 
 JOIN_ASSUME = [
@@ -109,6 +122,7 @@ def c02(rep, tier, seed):
     suite_heap.gen(rep, tier, "tables2", cl)
     suite_heap.gen(rep, tier, "tables", cl)
     suite_heap.trace(rep, tier, seed, cl)
+    suite_table.enumerated(rep, "struct", cl + ("stack", "append_rows", "transpose", "construct"))
 
 
 def c15(rep, tier, seed):
@@ -149,6 +163,8 @@ def c05(rep, tier, seed):
     rep.assumptions += VEC_ASSUME
     suite_vec.mc(rep, tier)
     suite_vec.gen(rep, tier, ["elem"], C05_CL)
+    suite_table.gen(rep, tier, ["arith"], ("table_arith", "table_width_mismatch"))
+    suite_table.enumerated(rep, "methods", ("broadcast",))
 
 
 def c06(rep, tier, seed):
@@ -161,12 +177,14 @@ def c07(rep, tier, seed):
     rep.assumptions += VEC_ASSUME + ["SliceIdx is cross-validated against Python's own list(range(n))[slice]; a disagreement is a spec bug (exit 2)"]
     suite_vec.mc(rep, tier)
     suite_vec.gen(rep, tier, ["slice", "mask", "int", "elem"], C07_CL)
+    suite_table.gen(rep, tier, ["select"], ("missing_column", "select_cols", "string_index", "commute"))
 
 
 def c08(rep, tier, seed):
     rep.assumptions += VEC_ASSUME + ["a wider value into a bool column: promotion or SerifTypeError-with-nothing-changed are both accepted"]
     suite_vec.mc_assign(rep)
     suite_vec.gen(rep, tier, ["assign", "atype"], C08_CL)
+    suite_table.gen(rep, tier, ["tassign"], C08_CL + ("table_atomic", "table_assign_cells"))
     suite_heap.gen(rep, tier, "tables", ("contents@target", "write_error", "setattr_error"))
 
 
@@ -185,7 +203,104 @@ def c17(rep, tier, seed):
     suite_heap.gen(rep, tier, "names", cl)
 
 
+def _merge(*mons):
+    out = {"truth": [], "rule": [], "writeback": []}
+    for m in mons:
+        if m:
+            for k in out:
+                out[k] += m.get(k, [])
+    return out
+
+
+def _producers(rep, tier, seed, clauses=()):
+    """run the suites that produce vectors (results, mutated targets, table columns); return their monitor events"""
+    q = tier == "quick"
+    mons = [
+        suite_types.gen(rep, tier, clauses),
+        suite_vec.gen(rep, tier, ["elem", "na", "atype"] + ([] if q else ["slice", "assign"]), clauses),
+        suite_table.gen(rep, tier, ["arith", "tassign"] + ([] if q else ["select"]), clauses),
+        suite_table.enumerated(rep, "struct", clauses),
+        suite_join.gen(rep, "quick", '{"left","full"}', '{"many_to_many"}', clauses),
+        suite_sort.gen(rep, "quick", clauses),
+        suite_group.gen(rep, "quick", clauses),
+        suite_csv.gen(rep, "quick", clauses),
+    ]
+    if not q:
+        mons += [suite_join.trace(rep, tier, seed, clauses, hashseed=seed % 1000), suite_sort.trace(rep, tier, seed, clauses),
+                 suite_group.trace(rep, tier, seed, clauses), suite_csv.random_texts(rep, tier, seed, clauses)]
+    return _merge(*mons)
+
+
+def c03(rep, tier, seed):
+    rep.assumptions += [
+        "every vector any suite obtains from the library (results, mutated targets, table columns) is abstracted to "
+        "(dtype, set of element classes) and judged by the TLA+ predicate Truthful (Trace_Types)",
+        "vectors holding values of subclasses / exotic classes are outside the tag universe and skipped",
+        "which truthful dtype is chosen is C04's concern",
+    ]
+    suite_types.mc(rep, tier)
+    mon = _producers(rep, tier, seed)
+    evs = []
+    seen = set()
+    for e in mon["truth"]:
+        k = (e["kind"], e["nullable"], tuple(e["tags"]), e.get("origin"))
+        if k not in seen:
+            seen.add(k)
+            evs.append(e)
+    suite_types.validate(rep, evs, "c03.monitor", ("dtype_truthful", "unknown_kind"))
+    rep.extra["vectors_classes_inspected"] = len(evs)
+    for w in mon["writeback"]:
+        rep.fail("writeback", "c03.monitor", {"origin": w["origin"], "values": w["values"], "dtype": w.get("dtype")},
+                 w["observed"], "element written back into its own position: accepted, dtype unchanged")
+    suite_heap.gen(rep, tier, "alias", ("dtype@target",))
+    if tier != "quick":
+        suite_heap.gen(rep, tier, "tables", ("dtype@target",))
+
+
+def c18(rep, tier, seed):
+    rep.assumptions += [
+        "unary operators, dropna, <<, T, unique and method broadcasts are not named in the statement: not checked",
+        "aggregate/window: key columns keep their stored name ('key' if unnamed), aggregates are <sanitised>_<fn>, uniquified left to right",
+    ]
+    cl = ("names", "name@target", "name@other", "agg_names", "agg_names_distinct", "keys_first")
+    q = tier == "quick"
+    suite_names.gen(rep, tier, ["agg"], cl)
+    suite_vec.gen(rep, tier, ["elem", "mask"] + ([] if q else ["slice"]), cl)
+    suite_table.gen(rep, tier, ["arith", "select"], cl)
+    suite_table.enumerated(rep, "struct", cl)
+    suite_join.gen(rep, "quick", '{"inner","full"}', '{"many_to_many"}', cl)
+    suite_sort.gen(rep, "quick", cl)
+    suite_group.gen(rep, "quick", cl)
+    suite_heap.mc(rep, tier, ["names"])
+    suite_heap.gen(rep, tier, "names", cl)
+    if not q:
+        suite_join.trace(rep, tier, seed, cl, hashseed=seed % 1000)
+        suite_sort.trace(rep, tier, seed, cl)
+        suite_heap.gen(rep, tier, "tables", cl)
+
+
+def c19(rep, tier, seed):
+    rep.assumptions += [
+        "the csv module is the trusted lexer: grids are rendered with csv.writer (minimal / full quoting, four delimiters, LF / CRLF) and "
+        "grids the csv module itself does not round-trip are skipped",
+        "int() / float() acceptance of a stripped text is Python's (the statement's own oracle)",
+        "records longer than the header are outside the statement",
+    ]
+    mon = suite_csv.gen(rep, tier, suite_csv.C19_CL)
+    mon2 = suite_csv.random_texts(rep, tier, seed, suite_csv.C19_CL)
+    evs, seen = [], set()
+    for e in mon["rule"] + mon2["rule"]:
+        k = (e["kind"], e["nullable"], tuple(e["tags"]))
+        if k not in seen:
+            seen.add(k)
+            evs.append(e)
+    suite_types.validate(rep, evs, "c19.column_dtypes", ("dtype_rule",))
+
+
 CHECKS = {
+    "C19": c19,
+    "C03": c03,
+    "C18": c18,
     "C17": c17,
     "C05": c05,
     "C06": c06,
